@@ -21,13 +21,16 @@ T = {
          "exited with the clock running) and bounded-step progress (rank function strictly decreasing on every own "
          "action after shutdown; every live thread has an enabled action) of Pamiq.Proto, lifted to whole executions "
          "(C02Live: along every continuation after shutdown the background threads perform at most 12*n work actions; no "
-         "deadlock among them; the launch epilogue never blocks); trace refinement of real launch() runs incl. timed "
-         "mode, interrupts, deadlock detection; the fake threading primitives are enumerated over all schedules and "
+         "deadlock among them; the launch epilogue never blocks; C02Term: from every reachable state there is a finite "
+         "continuation after which launch() has returned - no reachable state is a trap); trace refinement of real launch() "
+         "runs incl. timed mode, interrupts in the control loop and during start-up, deadlock detection; the fake threading primitives are enumerated over all schedules and "
          "compared with real threading.",
          "Lean 4 invariant + ranking-function proofs + trace-refinement correspondence", "§7.2", PROTO_NOTE),
  "C03": ("Fault at every callback kind and occurrence is a nondeterministic action of Pamiq.Proto: flag before teardown, "
-         "teardown phase final, control loop forced to shutdown after seeing a flag or unwinding; trace refinement of "
-         "real launch() runs with injected faults.",
+         "teardown phase final, control loop forced to shutdown after seeing a flag or unwinding; the control loop body in "
+         "source order (Pamiq.Tick: a tick stops the loop iff it found a cause, every tick reads every exception flag, the "
+         "tick that finds a raised flag is the last); trace refinement of real launch() runs with injected faults, every "
+         "control tick compared with the Tick model.",
          "Lean 4 proofs over the protocol model + fault-injection correspondence", "§7.3", PROTO_NOTE),
  "C04": ("A runtime save occurs only under an acknowledged pause (so C01 applies for its whole duration), no step "
          "completes during it, resume afterwards iff not already paused; product model Pamiq.SysData (protocol x "
@@ -91,20 +94,25 @@ T = {
  "C13": ("Round-robin cursor and training-gate decision proved for every tick/arrival history; marker only on positive "
          "decisions; correspondence with real TrainingThread.on_tick and DataUser.", "Lean 4 proofs over tick histories + differential correspondence", "§7.13",
          "Trusted: Lean kernel, standard axioms, scripted clock. Single-threaded (interleavings are C07)."),
- "C14": ("Decision tables for model access, object identity, sync_exact and inference_fresh over every run/load history.",
+ "C14": ("Decision tables for model access, object identity, sync_exact and inference_fresh over every run/load history; an "
+         "aborted training run changes nothing the agent sees (failed_run_keeps_inference); a model registered after the "
+         "wiring is handed to the agent as the very object it synchronises into (set_item_same_object).",
          "Lean 4 proofs (decision logic + invariant over histories) + differential correspondence", "§7.14",
-         "Trusted: Lean kernel, standard axioms. Parameters abstracted to version numbers; model set fixed after launch."),
+         "Trusted: Lean kernel, standard axioms. Parameters abstracted to version numbers."),
  "C15": ("fires_iff, restart only after firing for every clock advance between reads, gap, order/once, step scheduler "
          "divisibility, save-condition latch, raising callbacks never restart the interval, over every history; "
          "correspondence under an adversarial clock (advancing on every read, stepping back) with raising callbacks.",
          "Lean 4 proofs over update histories + differential correspondence", "§7.15",
          "Trusted: Lean kernel, standard axioms, scripted adversarial clock. `>` boundary as in the code."),
  "C16": ("Arithmetic recurrence of reset instants (reset_gap, no_burst, pause_free) for every history; timed correspondence "
-         "with SleepIntervalAdjustor / FixedIntervalInteraction.", "Lean 4 arithmetic proofs over timelines + differential correspondence", "§7.16",
+         "with SleepIntervalAdjustor / FixedIntervalInteraction stand-alone, and timed runs of the real launch() with a "
+         "fixed-interval interaction under random schedules and pause / resume / save scripts (no step while the clock is "
+         "frozen, step boundaries at least interval - offset apart on a clock of the monitor's own).", "Lean 4 arithmetic proofs over timelines + differential and system-level correspondence", "§7.16",
          "Trusted: Lean kernel, standard axioms, virtual clock. Assumes the clock is not paused during the adjustor's own sleep (C01 provides this under launch())."),
  "C17": ("FIFO/exactly-once invariant of the command queue for every request/drain interleaving, status decision table "
          "for any number of threads, partial truthfulness theorem + proved counterexample for the non-atomic reader; "
-         "correspondence with WebApiServer (in-process ASGI), SystemStatusProvider and the running system.",
+         "correspondence with WebApiServer (in-process ASGI) and the real drain loop of the control thread, "
+         "SystemStatusProvider (paused x exception flags) and the running system (dequeued => carried out; Pamiq.Tick).",
          "Lean 4 invariant + decision-table proofs + correspondence", "§7.17",
          PROTO_NOTE + " Starlette routing exercised in-process at the ASGI interface. The unrestricted status clause is a known finding (F9)."),
  "C18": ("keeps_newest, removes_older, touches_only_tracked for every max_keep and append/cleanup history over an abstract "
